@@ -1034,6 +1034,15 @@ def namespace_items(rng, n) -> List[Item]:
                     ("plain" if dflt_v != "none" and not with_dom and rng.random() < 0.5 else "option")
                 dom = P.value([0, 1, None, "a", [1], 5, "t1"]) if with_dom else None
                 dom2 = P.value([0, 1, None, "a", [1], 5, "t1"]) if with_dom else None
+                if style == "option" and rng.random() < 0.35:
+                    # `NAME = Option.auto(default=…, domain=…)`: the key is inferred from the (possibly nested, possibly
+                    # explicitly named) namespace; the Option is rebuilt at every access, so its node is anonymous
+                    d_auto = None if dflt_v == "none" else (P._node("template", t=dflt_v, params=[], h=1) if isinstance(dflt_v, str)
+                                                            else P.value(dflt_v, hidden=True))
+                    dom_auto = P.value([0, 1, None, "a", [1], 5, "t1"], hidden=True) if with_dom else None
+                    members.append((nm, P.option(f"{key}.{nm}", dflt=d_auto, dom=dom_auto, nsmember=1, style="auto", h=1)))
+                    plain.append((f"{key}.{nm}", P.option(f"{key}.{nm}", dflt=mk(), dom=dom2)))
+                    continue
                 members.append((nm, P.option(f"{key}.{nm}", dflt=mk(), dom=dom, nsmember=1, style=style)))
                 plain.append((f"{key}.{nm}", P.option(f"{key}.{nm}", dflt=mk(), dom=dom2)))
             # Option.namespace collects annotated members first, then the class attributes in order
@@ -2185,6 +2194,18 @@ def hist_requests(rng, cfg, g: G, meta, n_dicts=3):
             P.raw_op(op="reset")
             P.op(op, root, o, no_recording=True)     # plain
             recs.append((len(P.ops) - 3, len(P.ops) - 1))
+    # the option switches are interpreted by the default handlers, not by the nodes: with logging / caching / effects
+    # switched off by an option, a pass-through handler still observes every request
+    logreqs = []
+    for o in fam[:2]:
+        o2 = copy.deepcopy(o)
+        o2["LABREA"] = {"LOGGING": {"DISABLED": True}}
+        if rng.random() < 0.5:
+            o2["LABREA"]["CACHE"] = {"DISABLED": True}
+        P.raw_op(op="reset")
+        P.evaluate(root, sort_json(o2))
+        logreqs.append(len(P.ops) - 1)
+    meta["switched_off"] = logreqs
     meta["passthrough"] = recs
     # substitution of one dataset used as a dependency
     subs = []
@@ -2215,6 +2236,18 @@ def c18_programs(rng, tier) -> List[Item]:
 
 def c18_oracle(prog, meta, impl, model):
     out = []
+    for i in meta.get("switched_off", []):
+        a = impl[i]
+        if not is_ok(a):
+            continue
+        # one log request per dataset evaluation (each runs: the cache is cold or switched off), none of them emitted
+        nreq = sum(1 for q in a.get("req", []) if q[0] == "log")
+        nbodies = sum(1 for c in a.get("calls", []) if c[0] in {b["body"] for b in _bodies_of(prog).values() if b["body"]})
+        if a.get("log"):
+            out.append(("LABREA.LOGGING.DISABLED is set but a record was emitted", i, {"records": a["log"][:3]}))
+        if nbodies > 0 and nreq == 0:
+            out.append(("dataset bodies ran but no log request reached the handlers (the LABREA.LOGGING.DISABLED option is for "
+                        "the default handler to interpret)", i, {"bodies_run": nbodies, "log_requests": nreq}))
     for i, j in meta.get("passthrough", []):
         a, b = impl[i], impl[j]
         if "r" in a and "r" in b and a["r"][0] != "fuel" and b["r"][0] != "fuel" and dumps(a["r"]) != dumps(b["r"]):
@@ -2233,7 +2266,7 @@ def c18_oracle(prog, meta, impl, model):
     return out
 
 
-C18 = CoreProp("C18", ("req", "eval", "keys", "validate", "explain"), c18_programs, c18_oracle, nontrivial=nontrivial_eval,
+C18 = CoreProp("C18", ("req", "log", "eval", "keys", "validate", "explain"), c18_programs, c18_oracle, nontrivial=nontrivial_eval,
                rule="random graphs: each of the four operations once under recording pass-through handlers for all nine "
                     "request types (request log compared with the model's, result compared with the plain run) and a "
                     "substituting EvaluateRequest handler for one dataset, installed inside and outside the library's own "
